@@ -638,15 +638,26 @@ fn huge_case(i: u64) -> StoreCase {
         0 => (vec![(0u32, 2u8), (0x6000_0000, 3)], vec![5, 100_000], vec![1, 7], 70_000u32),
         // descending 32-bit values next to a small group of another shape
         1 => (vec![(0xC000_0000u32, 3u8)], vec![1 << 30], vec![-3], 66_000),
-        // 8-bit + 16-bit + 32-bit: two full subtables and a remainder
-        _ => (vec![(0u32, 1u8), (0x6000_0000, 2), (0xC000_0000, 3)], vec![0, 0, 0], vec![1, 1, 1], 140_000),
+        // 8-bit + 16-bit + 32-bit, widths varying with the row: several encodings, the largest split once
+        2 => (vec![(0u32, 1u8), (0x6000_0000, 2), (0xC000_0000, 3)], vec![0, 0, 0], vec![1, 1, 1], 140_000),
+        // one encoding (every value needs 32 bits) of exactly 2 x 65535 + 1 rows: two full subtables and a one-row remainder
+        3 => (vec![(0u32, 3u8)], vec![100_000], vec![1], 131_071),
+        // 200000 rows of one shape (constant 16-bit column + distinct 32-bit column): three full subtables and a remainder
+        4 => (vec![(0x6000_0000u32, 2u8), (0xC000_0000, 3)], vec![1000, -40_000], vec![0, -1], 200_000),
+        // thorough only: counts around the multiples of 65535
+        5 => (vec![(0u32, 3u8)], vec![100_000], vec![1], 131_070),
+        6 => (vec![(0u32, 3u8)], vec![-100_000], vec![-1], 131_072),
+        7 => (vec![(0x6000_0000u32, 3u8), (0xC000_0000, 2)], vec![1 << 20, 300], vec![3, 0], 196_605),
+        8 => (vec![(0x6000_0000u32, 3u8), (0xC000_0000, 2)], vec![1 << 20, 300], vec![3, 0], 196_606),
+        9 => (vec![(0u32, 3u8), (0x6000_0000, 3), (0xC000_0000, 3)], vec![70_000, -70_000, 1 << 24], vec![1, -1, 5], 262_141),
+        _ => (vec![(0xC000_0000u32, 3u8)], vec![-(1 << 30)], vec![7], 300_000),
     };
     let spec = StoreSpec {
         n_axes: 1,
         regions,
         shapes: vec![shape, vec![(0, 1)]],
         groups: vec![Group { shape: 0, count, base, step }, Group { shape: 0x8000_0000, count: 300, base: vec![1], step: vec![1] }],
-        order: if i == 2 { 3 } else { 0 },
+        order: [0, 0, 3, 0, 1, 3, 2, 0, 3, 1, 3][(i as usize).min(10)],
     };
     StoreCase { implicit: false, spec, locs: vec![vec![Coord::Bits(12288)], vec![Coord::Bits(-16384)]] }
 }
@@ -1557,7 +1568,7 @@ fn main() {
     ctx.set_rule("store/big-store/huge-store: 1..4 axes, 1..12 supplied regions (per-axis triples: unused axis, one-sided sorted triples with equalities, master-like, from-zero, unsorted, zero-crossing, beyond +-1), \
         1..6 row shapes (columns = region + width class: explicit 0 / i8 / i16 / i32 / boundary values, width cap per case), rows = groups (shape, count, base, step) giving duplicates, runs and all-zero rows, \
         handed over as generated / reversed / round-robin / scrambled, to VariationStoreBuilder::new or new_with_implicit_indices; store: <= 40 groups of mostly 1 row, big-store: <= 6 groups of up to 12000 (thorough 30000) rows, \
-        huge-store: > 65535 distinct rows of one shape. Each row is read back through the remap (independent row decoder) and up to 41 rows x 1..4 locations (region start/peak/end +-1, midpoints, 0, +-1, random) go through \
+        huge-store: fixed cases of 66000..300000 distinct rows of one shape (split over 2..5 subtables; 131071 and 200000 rows in quick). Each row is read back through the remap (independent row decoder) and up to 41 rows x 1..4 locations (region start/peak/end +-1, midpoints, 0, +-1, random) go through \
         compute_delta / compute_float_delta. Non-trivial: the built store has >= 2 subtables, or fewer regions than supplied, or fewer rows than supplied; distinct by hash of (mode, spec). \
         normalize: 1..3 axes (typical, integer, fractional, equalities, 1-ulp spans, one-sided spans up to the 16.16 range) x 1..23 user values (min/default/max +-2 ulp, interior, raw, huge); non-trivial: a non-degenerate axis and >= 2 values. \
         avar: 1..3 valid segment maps (0 or 3..11 points) queried at every point, +-2 ulp, between points; non-trivial: a map with > 3 points. \
@@ -1573,7 +1584,7 @@ fn main() {
     let q = ctx.quick();
     ctx.prop_stage("store", Isolation::Threads, ctx.n(30_000, 300_000), store_strategy, test_store);
     ctx.prop_stage("big-store", Isolation::Threads, ctx.n(400, 3_000), move || big_store_strategy(if q { 12_000 } else { 30_000 }), test_store);
-    ctx.index_stage("huge-store", Isolation::Threads, 3, huge_case, test_store);
+    ctx.index_stage("huge-store", Isolation::Threads, if q { 5 } else { 11 }, huge_case, test_store);
     if !q {
         ctx.prop_stage("huge-store-generated", Isolation::Threads, 32, || big_store_strategy(90_000), test_store);
     }
